@@ -4,6 +4,7 @@ import (
 	"fmt"
 	"go/token"
 	"go/types"
+	"strings"
 
 	"golang.org/x/tools/go/ssa"
 
@@ -563,11 +564,18 @@ func (c *Ctx) pan4() {
 		return r != nil && pathxNamed(r.Type()) == "connSignal"
 	}, "mqtt")
 	check(c.P.SourceFuncs(c.P.Test), func(f *ssa.Function) bool {
-		switch load.FuncName(load.TopLevel(f)) {
-		case "NewPublishExchangeStub", "newSubscribeStub":
-			return f.Parent() == nil || load.FuncName(load.TopLevel(f)) == "newSubscribeStub"
+		// a stub has no testing.TB: a panic is its only way to refuse misuse (its
+		// documented argument checks); a mock reports through t and never panics
+		top := load.TopLevel(f)
+		if !strings.HasSuffix(top.Name(), "Stub") {
+			return false
 		}
-		return false
+		for _, p := range top.Params {
+			if strings.HasSuffix(p.Type().String(), "testing.TB") {
+				return false
+			}
+		}
+		return true
 	}, "mqtttest")
 	c.S.Floor("PAN-4", "explicit panic sites", n, 10)
 }
@@ -944,4 +952,94 @@ func (c *Ctx) tok14() {
 		a.done(1, "every plain receive of the write token follows a Close of the connection (or there is none)")
 	}
 	c.S.Floor("TOK-14", "plain receives of the write token in the three terminators", n, 3)
+}
+
+// ---- TOK-15: a sequence token goes back to the semaphore it came from ----
+//
+// The two publish sequences are values that travel through their semaphores.
+// What a function puts into a sequence semaphore is the value it took from
+// that same semaphore (possibly updated in place) — never the other
+// sequence's value: the levels would continue each other's numbering.
+
+func init() {
+	register("TOK-15", []string{"TOK-15"}, func(c *Ctx, _ map[string]bool) { c.tok15() })
+}
+
+func (c *Ctx) tok15() {
+	n := 0
+	inst := func(ch ssa.Value) string {
+		r := pathx.RoleOfValue(ch)
+		if r.Field != "seqSem" && !strings.HasSuffix(r.Key(), "seqSem") {
+			return ""
+		}
+		switch {
+		case r.Has("atLeastOnce"):
+			return "atLeastOnce"
+		case r.Has("exactlyOnce"):
+			return "exactlyOnce"
+		}
+		return "?" // a sequence semaphore reached through a parameter: one instance per call
+	}
+	for _, fn := range c.analysed() {
+		var a *acc
+		for _, p := range c.Paths("TOK-15", fn) {
+			// where each taken sequence lives: the received value, or the cell it was stored in
+			origin := map[ssa.Value]string{}
+			for i := range p.Events {
+				e := &p.Events[i]
+				switch e.Kind {
+				case pathx.KRecv:
+					if k := inst(e.Chan); k != "" {
+						v := pathx.ResultAt(e.Result, 0)
+						if v == nil {
+							v = e.Result
+						}
+						if v != nil {
+							origin[v] = k
+						}
+					}
+				case pathx.KStore:
+					if k, ok := origin[e.Val]; ok {
+						if al, isCell := e.Addr.(*ssa.Alloc); isCell {
+							origin[al] = k
+						}
+					}
+				case pathx.KSend:
+					k := inst(e.Chan)
+					if k == "" {
+						continue
+					}
+					if a == nil {
+						a = c.acc("TOK-15", fn, "sequence-returned-to-its-own-semaphore")
+					}
+					n++
+					v := e.Val
+					from, known := origin[v]
+					if !known {
+						if u, ok := v.(*ssa.UnOp); ok && u.Op == token.MUL {
+							from, known = origin[u.X]
+						}
+					}
+					if !known {
+						// a sequence constructed here (newClient) or handed in
+						if _, isAlloc := v.(*ssa.Alloc); !isAlloc && p.Start == fn.Blocks[0] && len(origin) > 0 {
+							a.fail(p, i, "the value put into %s.seqSem is not one this function took from a sequence semaphore", k)
+						} else {
+							a.pass()
+						}
+						continue
+					}
+					if from == k || from == "?" || k == "?" {
+						a.pass()
+					} else {
+						a.fail(p, i, "the sequence taken from %s.seqSem is put into %s.seqSem: that level continues with the other level's counters — pending transfers are skipped at the next resend and identifiers are handed out again", from, k)
+					}
+				}
+			}
+		}
+		if a != nil {
+			a.done(1, "every deposit is the value taken from the same semaphore")
+		}
+	}
+	c.S.Floor("TOK-15", "deposits into a sequence semaphore", n, 6)
 }
